@@ -80,6 +80,27 @@ CLAIMED = {
                 tech="provenance term of AisSentence.message_type evaluated over all 256 first-byte values vs. the armoring alphabet",
                 text="The extracted term for sentence.message_type is compared with the 6-bit value of the first payload character for all "
                      "byte values. Known finding K2 (the code takes the top six bits of the armored byte)."),
+    "C01": dict(cat="proof", ref="5/C01",
+                tech="panic-obligation discharge by abstract interpretation of all reachable local MIR (IntSet/Lin/BitVec domains, loop rule, congruence partition) x3 configurations",
+                text="Every MIR Assert, panic-family call, unwrap/expect, overflow-inheriting operator and documented panic condition of nom/heapless "
+                     "reachable from AisParser::parse, messages::unarmor and messages::parse is evaluated in every abstract partition that reaches it "
+                     "(symbolic parser state, line, payload length, fill 0..5); leaf decoders over the join of their call-site ranges; loops only of the "
+                     "accepted bounded shapes; no abort/exit. All obligations must be discharged."),
+    "C03": dict(cat="translation_validation", ref="5/C03",
+                tech="loop summarisation (counted-slice rule) + congruence partition mod 4 + bit-level OR/AND write descriptors vs. armoring definition",
+                text="unarmor's MIR is summarised for a symbolic input length and fill: alphabet partition of the loop body, output length per residue "
+                     "class, per-iteration OR-writes (which value bit lands on which stream bit) and final AND-masks are compared with the definition "
+                     "of 6-bit unarmoring for all 4x4 residue classes and all 6 fill values."),
+    "C18": dict(cat="translation_validation", ref="5/C18",
+                tech="cross-configuration comparison of all extracted models (layout partition, reassembly cells, unarmor outcomes, leaf tables)",
+                text="The models extracted from the std, alloc and no-alloc MIR are compared region by region: identical for std/alloc; for no-alloc "
+                     "only Err outcomes caused by a capacity transformer beyond the documented capacities may differ, and a capacity failure must "
+                     "always surface as Err. The local many_m_n/count copies are interpreted, not trusted."),
+    "C20": dict(cat="proof", ref="5/C20",
+                tech="abstract interpretation of the binary's MIR with a generic line item: panic obligations by receiver provenance, print/eprint reachability per parser outcome, line-source shape",
+                text="main is interpreted with stdin as an opaque environment and one generic line: panic-capable calls may fail only on an I/O "
+                     "error item; Complete -> exactly one stdout record, Err -> exactly one stderr record, Incomplete -> none; lines come from "
+                     "stdin.split(b'\\n') with no dropping adaptor, drained by for_each; every path returns normally."),
 }
 
 NA = {}
